@@ -22,14 +22,14 @@ structure Wires (c : PC) : Prop where
 
 theorem Wires.swap {c : PC} (h : Wires c) : Wires c.swap := ⟨h.deafB, h.deafA, h.closedBA, h.closedAB⟩
 
-theorem AStep.deaf_mono {v v' : View} {ws : List Msg} {acc : List Bytes} (h : AStep x j v v' ws acc)
+theorem AStep.deaf_mono {v v' : View} {ws : List Msg} {acc : List Bytes} {xl : List XL} (h : AStep x j v v' ws acc xl)
     (hd : deaf v' = true) : deaf v = true := by
   cases h <;> simp_all [deaf] <;> (try (rcases hd with hd | hd <;> simp_all)) <;> grind
 
-theorem Wires.stepL {c c' : PC} {ws : List Msg} {acc : List Bytes} (h : Wires c) (st : CStepL x j c c' ws acc) :
+theorem Wires.stepL {c c' : PC} {ws : List Msg} {acc : List Bytes} {xl : List XL} (h : Wires c) (st : CStepL x j c c' ws acc xl) :
     Wires c' := by
   cases st with
-  | act v ws acc hs =>
+  | act v ws acc xl hs =>
     refine ⟨fun hd => h.deafA (hs.deaf_mono hd), h.deafB, fun ho => ?_, h.closedBA⟩
     simp only at ho ⊢
     rw [ho]; simp [h.closedAB ho]
@@ -129,11 +129,11 @@ theorem core_conn {s : Sm} (h : CoreS ownA ownB s) (hp : 1 ≤ s.cP) : s.aP = 0 
   obtain ⟨⟨l1, l2, l3, l4, l5, l6, l7, l8, l9⟩, ⟨r1, r2, r3, r4, r5, r6, r7, r8, r9⟩⟩ := h
   simp only [Sm.swap] at r1 r2 r3 r4 r5 r6 r7 r8 r9
   by_cases hb : s.sb = 1
-  · exact Or.inr ⟨l4 hp, r3 hb⟩
+  · exact Or.inr ⟨l4 hp, r3 (Or.inl hb)⟩
   · exact Or.inl ⟨l6 (l9 (l4 hp) (l8 hp)), l9 (l4 hp) (l8 hp), hb⟩
 
 theorem core_req (hex : ¬(ownA ∧ ownB)) {s : Sm} (h : CoreS ownA ownB s) (ha : s.sa = 1) (hb : s.sb = 1) : False :=
-  hex ⟨h.l.ownSlot ha, h.r.ownSlot hb⟩
+  hex ⟨h.l.ownSlot (Or.inl ha), h.r.ownSlot (Or.inl hb)⟩
 
 end
 
@@ -194,5 +194,58 @@ theorem Dir.silentA {c c' : PC} {S R : List Bytes} (d : Dir x j c S R) (eb : c'.
 
 theorem ab_nil (c : PC) : (if c.abOpen = true then c.ab ++ [] else c.ab) = c.ab := by simp
 
+
+/-! ### The end of a stream: `Finish x` -/
+
+def hasFin (x : Nat) (l : List Msg) : Bool := l.any (isFin x)
+
+/-- No `Push x` follows a `Finish x`. -/
+def finLast (x : Nat) : List Msg → Bool
+  | [] => true
+  | m :: r => (if isFin x m then !hasPush x r else true) && finLast x r
+
+theorem hasFin_append (x : Nat) (a b : List Msg) : hasFin x (a ++ b) = (hasFin x a || hasFin x b) := by simp [hasFin]
+
+/-- Dead for streams stays dead: a step of the left side … -/
+theorem dead_stepL {ownA ownB : Prop} {jj : Nat} {c c' : PC} {ws : List Msg} {acc : List Bytes} {xl : List XL}
+    (hc : CoreS ownA ownB (sm x c)) (hd : (sm x c).dead) (st : CStepL x jj c c' ws acc xl) (hn : c'.a.rngNil = false) :
+    (sm x c').dead :=
+  Sm.dead_stepL hc hd (sm_stepL st hn)
+
+/-- … and of the right side. -/
+theorem dead_stepR {ownA ownB : Prop} {jj : Nat} {c c'' : PC} {ws : List Msg} {acc : List Bytes} {xl : List XL}
+    (hc : CoreS ownA ownB (sm x c)) (hd : (sm x c).dead) (st : CStepL x jj c.swap c'' ws acc xl)
+    (hn : c''.a.rngNil = false) : (sm x c''.swap).dead := by
+  have h1 : (sm x c'').dead :=
+    Sm.dead_stepL (s := sm x c.swap) (by simpa [sm_swap] using hc.swap) (by simpa [sm_swap] using Sm.dead_swap hd)
+      (sm_stepL st hn)
+  simpa [sm_swap] using Sm.dead_swap h1
+
+/-- The part of the invariant about the END of the direction left → right, for object `j` of the right side.
+    `S`: the `Push x` payloads the left sink has taken; `R`: those accepted into `j`; `W`: the payloads the left
+    side's writes queued as `Push x`; `P`: how many `Finish x` the right side processed while its slot of `x`
+    was `Established j`. -/
+structure Fin (x j : Nat) (c : PC) (S R W : List Bytes) (P : Nat) : Prop where
+  /-- what was sent or is queued was written … -/
+  f0 : S ++ pX x c.a.outq <+: W
+  /-- … and is everything written, unless the queue was dropped -/
+  f1 : S ++ pX x c.a.outq = W ∨ (c.a.outClosed = true ∧ c.a.outq = [])
+  /-- a `Finish x` under way comes from a shut-down stream (or `x` is the id of a bind request): nothing can be
+      written on `x` any more, and no `Push x` follows it -/
+  f2 : hasFin x c.path = true → (sm x c).dead ∨ (1 ≤ c.a.nobj ∧ c.a.nw = 0 ∧ finLast x c.path = true)
+  /-- once the `Finish x` has left the sender, everything written has -/
+  f3 : hasFin x (inMsgs c.b.inbox ++ c.ab) = true → (sm x c).dead ∨ S = W
+  /-- a cut after the `Finish x` was delivered lost no `Push x` -/
+  f4 : c.abOpen = false → c.b.canJ = true → hasFin x (inMsgs c.b.inbox) = true →
+    (sm x c).dead ∨ R ++ pX x (inMsgs c.b.inbox) = S
+  /-- … also if object `j` does not exist yet -/
+  f4p : c.abOpen = false → c.b.len ≤ j → Pot x c → hasFin x (inMsgs c.b.inbox) = true →
+    (sm x c).dead ∨ pX x (inMsgs c.b.inbox) = S
+  /-- object `j` holds the slot with an open receiver but no sender: a `Finish x` was processed for it -/
+  f5 : c.b.slot = some (.established j) → c.b.rxJ = true → c.b.canJ = false → 1 ≤ P
+  /-- after a `Finish x` processed for `j` (receiver still open): everything written was accepted -/
+  f6 : 1 ≤ P → c.b.rxJ = true → R = W ∧ 1 ≤ c.a.nobj ∧ c.a.nw = 0 ∧ hasPush x c.path = false
+  f7 : ∀ i, c.b.slot = some (.established i) → i < c.b.len
+  f8 : 1 ≤ P → j < c.b.len
 
 end Penguin.PairAll
